@@ -24,9 +24,17 @@ Init == /\ tid \in 1..N /\ l = 1
         /\ led = <<>> /\ led0 = <<>> /\ pend = <<>> /\ owed = <<>>
         /\ v = [C05 |-> "ok", C11 |-> "ok"]
 
-HoldV(vv, e, L) ==
-  [vv EXCEPT !.C05 = F(F(@, e.hold # L, "C05:holdings-differ-from-fold"),
-                       led0 # <<>> /\ ~Conserved(led0, e.hold), "C05:not-conserved")]
+\* ---- observing holdings.  The fills of a round may have been applied completely, not yet, or - at points that are
+\* not callbacks - up to some prefix; where exactly the implementation applies them is not part of C05.
+\* Applied(k) = ledger after the first k pending fills.
+Applied(k) == ApplyFills(led, SubSeq(pend, 1, k), Hd.cs)
+Ks(H) == {k \in 0..Len(pend) : Applied(k) = H}
+\* the model follows the observation: the largest prefix that explains it
+Observe(H) == IF Ks(H) = {} THEN <<led, pend, FALSE>>
+              ELSE LET k == CHOOSE x \in Ks(H) : \A y \in Ks(H) : x >= y IN <<Applied(k), SubSeq(pend, k + 1, Len(pend)), TRUE>>
+HoldV(vv, H, ok) ==
+  [vv EXCEPT !.C05 = F(F(@, ~ok, "C05:holdings-differ-from-fold"),
+                       led0 # <<>> /\ ~Conserved(led0, H), "C05:not-conserved")]
 
 \* callbacks owed: <<kind, agent, market, x, y, z, w>>
 OweOrder(e) == <<"sub", e.a, e.m, e.id, 0, 0, 0>>
@@ -43,40 +51,41 @@ Step ==
      CASE e.k = "init" ->
             /\ led' = e.hold /\ led0' = e.hold /\ UNCHANGED <<pend, owed, v>>
        [] e.k = "acc" ->
-            /\ owed' = Append(owed, OweOrder(e))
-            /\ v' = [v EXCEPT !.C05 = F(@, pend # <<>>, "C05:fills-never-applied")]
-            /\ UNCHANGED <<led, led0, pend>>
+            /\ owed' = Append(owed, OweOrder(e)) /\ UNCHANGED <<led, led0, pend, v>>
        [] e.k = "canc" ->
-            /\ owed' = Append(owed, OweCancel(e))
-            /\ v' = [v EXCEPT !.C05 = F(@, pend # <<>>, "C05:fills-never-applied")]
-            /\ UNCHANGED <<led, led0, pend>>
+            /\ owed' = Append(owed, OweCancel(e)) /\ UNCHANGED <<led, led0, pend, v>>
        [] e.k = "round" ->
-            /\ pend' = e.fills
-            /\ v' = [v EXCEPT !.C05 = F(@, pend # <<>>, "C05:fills-never-applied")]
-            /\ UNCHANGED <<led, led0, owed>>
+            \* the fills of this round are pending until an observation shows them applied; each owes two callbacks
+            /\ pend' = pend \o e.fills
+            /\ owed' = owed \o OweFills(e.fills)
+            /\ UNCHANGED <<led, led0, v>>
        [] e.k = "applied" ->
-            \* holdings change here, exactly once per round, by the fills of that round
-            LET L2 == ApplyFills(led, pend, Hd.cs) IN
-            /\ led' = L2 /\ pend' = <<>>
-            /\ owed' = owed \o OweFills(pend)
-            /\ v' = HoldV([v EXCEPT !.C05 = F(@, e.n # Len(pend), "C05:applied-count")], e, L2)
-            /\ UNCHANGED led0
+            LET o == Observe(e.hold) IN
+            /\ led' = o[1] /\ pend' = o[2] /\ v' = HoldV(v, e.hold, o[3]) /\ UNCHANGED <<led0, owed>>
        [] e.k = "cb" ->
             LET key == CbKey(e)
                 i == FirstIdx(owed, LAMBDA x : x = key)
-                other == FirstIdx(owed, LAMBDA x : x[1] = key[1] /\ x[3] = key[3] /\ x[4] = key[4] /\ x[5] = key[5]) IN
+                other == FirstIdx(owed, LAMBDA x : x[1] = key[1] /\ x[3] = key[3] /\ x[4] = key[4] /\ x[5] = key[5])
+                o == Observe(e.hold) IN
             /\ owed' = IF i = 0 THEN owed ELSE RemoveAt(owed, i)
+            /\ led' = o[1] /\ pend' = o[2]
             /\ v' = HoldV([v EXCEPT !.C11 =
-                     F(F(F(@, e.kind = "exe" /\ (pend # <<>> \/ e.hold # led), "C11:before-holdings-of-the-whole-round"),
+                     \* a fill is reported to its parties only after the holdings of the WHOLE round have been updated
+                     F(F(F(@, e.kind = "exe" /\ (o[2] # <<>> \/ ~o[3]), "C11:before-holdings-of-the-whole-round"),
                          i = 0 /\ other # 0, IF e.kind = "exe" THEN "C11:wrong-party-or-record" ELSE "C11:wrong-party"),
-                         i = 0 /\ other = 0, "C11:extra-" \o e.kind)], e, led)
-            /\ UNCHANGED <<led, led0, pend>>
+                         i = 0 /\ other = 0, "C11:extra-" \o e.kind)], e.hold, o[3])
+            /\ UNCHANGED led0
        [] e.k = "stepE" ->
-            /\ v' = HoldV(v, e, led) /\ UNCHANGED <<led, led0, pend, owed>>
+            LET o == Observe(e.hold) IN
+            /\ led' = o[1] /\ pend' = o[2]
+            /\ v' = [HoldV(v, e.hold, o[3]) EXCEPT !.C05 = F(@, o[2] # <<>>, "C05:fills-never-applied")]
+            /\ UNCHANGED <<led0, owed>>
        [] e.k = "simE" ->
+            LET o == Observe(e.hold) IN
+            /\ led' = o[1] /\ pend' = o[2]
             /\ v' = HoldV([v EXCEPT !.C11 = F(@, owed # <<>>, "C11:missing-" \o (IF owed = <<>> THEN "" ELSE owed[1][1])),
-                                    !.C05 = F(@, pend # <<>>, "C05:fills-never-applied")], e, led)
-            /\ UNCHANGED <<led, led0, pend, owed>>
+                                    !.C05 = F(@, o[2] # <<>>, "C05:fills-never-applied")], e.hold, o[3])
+            /\ UNCHANGED <<led0, owed>>
        [] e.k = "abort" ->
             /\ v' = [v EXCEPT !.C05 = F(@, e.phase = "ledger", "C05:run-aborted-in-ledger-" \o e.exc),
                               !.C11 = F(@, e.phase = "callback", "C11:run-aborted-in-callback-" \o e.exc)]
